@@ -281,10 +281,52 @@ func run(raw json.RawMessage) (common.Case, error) {
 	return c, nil
 }
 
+// genStall: lazy retrieval with a small buffer, a frame timeout, a truly failing store, healthy
+// stores that answer at once but pack their series into batch responses larger than the buffer
+// with more responses to follow, and a reader that stalls longer than the frame timeout.
+func genStall(r *rand.Rand) pu.Input {
+	in := pu.Input{Lazy: true, Buf: common.Pick(r, 1, 1, 2), Batch: common.Pick(r, int64(0), 2, 64),
+		FrameTimeoutMs: 300, StallMs: 800, StallAfter: r.Intn(2)}
+	mk := func(prefix string, i int) pu.SeriesIn {
+		return pu.SeriesIn{Labels: []pu.Lbl{{"a", fmt.Sprintf("%s%02d", prefix, i)}}}
+	}
+	nst := 2 + r.Intn(2)
+	failing := r.Intn(nst)
+	for si := 0; si < nst; si++ {
+		st := pu.StoreIn{Name: fmt.Sprintf("store%d", si), Supports: true}
+		prefix := string(rune('b' + si))
+		next := 1
+		frames := 2 + r.Intn(2)
+		for f := 0; f < frames; f++ {
+			if si != failing && (f == 0 || r.Intn(2) == 0) {
+				fr := pu.FrameIn{Kind: "batch"}
+				for k := in.Buf + 2 + r.Intn(3); k > 0; k-- {
+					fr.Series = append(fr.Series, mk(prefix, next))
+					next++
+				}
+				st.Frames = append(st.Frames, fr)
+			} else {
+				st.Frames = append(st.Frames, pu.FrameIn{Kind: "series", Series: []pu.SeriesIn{mk(prefix, next)}})
+				next++
+			}
+		}
+		if si == failing {
+			st.Fail = "recv"
+			st.FailAt = r.Intn(2)
+		}
+		in.Stores = append(in.Stores, st)
+	}
+	return in
+}
+
 func gen(r *rand.Rand, tier string, n int) []any {
 	var out []any
 	nTimeout := 0
 	for i := 0; i < n; i++ {
+		if r.Intn(40) == 0 {
+			out = append(out, genStall(r))
+			continue
+		}
 		in := pu.GenBase(r, tier == "thorough")
 		in.Limit = 0
 		in.Abort = r.Intn(2) == 0
